@@ -26,8 +26,7 @@ LEVEL_TEXT = ("Random histories of 60-400 operations (add_row, read, repr/str, d
 LEVEL_NOTE = "Trusted: aomon/oracles/vk.py, NumPy eigenvalues. Stability is claimed (and checked) for the von Karman variant only."
 RULE = "case = (variant, requested size, parameters, history seed) or stability configuration; non-trivial when the history has >= 10 add_row steps; distinct by parameters and history seed"
 ASSUMPTIONS = ["reads are .scrn, repr(), str(), copy.deepcopy(obj).scrn"]
-REQUIRED = ["infinitephasescreen.py:PhaseScreen.add_row", "infinitephasescreen.py:PhaseScreen.scrn", "infinitephasescreen.py:PhaseScreenKolmogorov.__repr__",
-            "infinitephasescreen.py:find_allowed_size"]
+REQUIRED = ["infinitephasescreen.py:PhaseScreen.add_row", "infinitephasescreen.py:PhaseScreen.scrn"]
 REQUIRED_COUNTERS = ["innovations_recovered", "ops:add_row", "ops:read", "ops:repr", "ops:global_rng", "shift_checks", "predicted_rows", "stability_configs", "histories_longer_than_buffer"]
 TIMEOUT = {"quick": 900, "thorough": 7200}
 EPS32 = float(np.finfo(np.float32).eps)
